@@ -430,7 +430,14 @@ func (fr *frame) step(ins ssa.Instruction) bool {
 	case *ssa.Extract:
 		fr.set(ins, fr.get(ins.Tuple).(Tuple)[ins.Index])
 	case *ssa.Slice:
-		fr.set(ins, p.sliceOp(ins, fr.get(ins.X), fr.opt(ins.Low), fr.opt(ins.High), fr.opt(ins.Max)))
+		wid := func(v ssa.Value) Value {
+			x := fr.opt(v)
+			if x == nil {
+				return nil
+			}
+			return p.asBV64(x, v.Type())
+		}
+		fr.set(ins, p.sliceOp(ins, fr.get(ins.X), wid(ins.Low), wid(ins.High), wid(ins.Max)))
 	case *ssa.Return:
 		switch len(ins.Results) {
 		case 0:
@@ -483,7 +490,7 @@ func (fr *frame) step(ins ssa.Instruction) bool {
 		*cell = p.zero(ins.Type().Underlying().(*types.Pointer).Elem())
 		fr.set(ins, Ptr(cell))
 	case *ssa.MakeSlice:
-		lt := p.asBV64(fr.get(ins.Len))
+		lt := p.asBV64(fr.get(ins.Len), ins.Len.Type())
 		if p.makeCap > 0 && !lt.IsConst() {
 			// harness-declared bound: declared lengths above the cap are outside the claim
 			c := p.leIdx(lt, p.makeCap)
@@ -493,7 +500,7 @@ func (fr *frame) step(ins ssa.Instruction) bool {
 			p.assertPC(c)
 		}
 		ln := p.concretize(lt, "make len")
-		cp := p.concretize(p.asBV64(fr.get(ins.Cap)), "make cap")
+		cp := p.concretize(p.asBV64(fr.get(ins.Cap), ins.Cap.Type()), "make cap")
 		if int64(ln) < 0 || cp < ln || cp > 1<<24 {
 			if int64(ln) < 0 || cp < ln {
 				p.goPanicf("makeslice", "makeslice: len out of range")
@@ -542,7 +549,7 @@ func (fr *frame) step(ins ssa.Instruction) bool {
 		fr.set(ins, copyVal(fr.get(ins.X).(Struct)[ins.Field]))
 	case *ssa.IndexAddr:
 		x := fr.get(ins.X)
-		idx := p.asBV64(fr.get(ins.Index))
+		idx := p.asBV64(fr.get(ins.Index), ins.Index.Type())
 		switch x := x.(type) {
 		case Slice:
 			i := p.boundsIndex(idx, len(x))
@@ -559,7 +566,7 @@ func (fr *frame) step(ins ssa.Instruction) bool {
 		}
 	case *ssa.Index:
 		x := fr.get(ins.X)
-		idx := p.asBV64(fr.get(ins.Index))
+		idx := p.asBV64(fr.get(ins.Index), ins.Index.Type())
 		switch x := x.(type) {
 		case Array:
 			fr.set(ins, copyVal(p.readIndex(idx, []Value(x))))
@@ -692,14 +699,19 @@ func (p *Path) describe(v Value) string {
 	return fmt.Sprintf("%T", v)
 }
 
-func (p *Path) asBV64(v Value) *Term {
+// asBV64 widens an index / length operand to 64 bits according to its static type
+// (unsigned operands zero-extend: `data[67+32*i:]` with a uint16 i above 32767).
+func (p *Path) asBV64(v Value, typ ...types.Type) *Term {
 	t := v.(*Term)
 	if t.sort.K == KInt {
 		return t
 	}
 	if t.sort.K == KBV && t.sort.W < 64 {
-		// index operands are of some integer type; widen as unsigned only when the
-		// static type is unsigned is handled by callers via conv. Here: sign-extend.
+		if len(typ) == 1 {
+			if _, signed, ok := intInfo(typ[0]); ok && !signed {
+				return p.tb.Zext(t, 64-t.sort.W)
+			}
+		}
 		return p.tb.Sext(t, 64-t.sort.W)
 	}
 	return t
@@ -912,7 +924,7 @@ func (p *Path) lookup(ins *ssa.Lookup, x, k Value) Value {
 		for i, b := range x.b {
 			vs[i] = b
 		}
-		return p.readIndex(p.asBV64(k), vs)
+		return p.readIndex(p.asBV64(k, ins.Index.Type()), vs)
 	}
 	panic(p.unsupported(fmt.Sprintf("lookup on %T", x)))
 }
